@@ -37,8 +37,14 @@ func spaces(tier, only string) []space {
 	if thorough {
 		keys, pages, masterLen = []string{"a", "b/c", "b/d", "b/e/f", "b/e/g", "c/h", "z"}, []int{1000, 4, 3, 2, 1}, 5
 	}
-	all := []space{newJSONSpace("json", shallow, []int{0, 1, 2, 3}), newJSONSpace("json-deep", sortShapes(deep), []int{0, 1, 2}),
-		newXMLSpace(), newMediaSpace(), newMasterSpace(masterLen), newS3Space(keys, pages)}
+	// keys are opaque strings to the store: a blank, an empty segment, a bare and an escaped-looking percent sign, characters
+	// that end a URL path
+	oddKeys := []string{"100%.csv", "a b.txt", "a%2Fb", "b//c", "q?x#y"}
+	if thorough {
+		oddKeys = []string{"100%.csv", "a b.txt", "a%2Fb", "b//c", "b//d/e", "c+d&e", "q?x#y", "é.txt"}
+	}
+	all := []space{newJSONSpace("json", shallow, []int{0, 1, 2, 3, 5, 6}), newJSONSpace("json-deep", sortShapes(deep), []int{0, 1, 2}),
+		newXMLSpace(), newMediaSpace(), newMasterSpace(masterLen), newS3Space(keys, pages), newS3SpaceNamed("s3-odd-keys", oddKeys, pages)}
 	if only == "" {
 		return all
 	}
